@@ -74,6 +74,38 @@ def _scope_edits(c, ob, scan_from, name, dropcall, binder_stmt_start=None):
     return edits
 
 
+def _depth0_contains(c, a, b, pat_tokens):
+    """does sig range [a,b) contain the token sequence at brace depth 0 (parentheses do not count)?"""
+    depth = 0
+    for q in range(a, b):
+        x = c.t(q)
+        if x == "{": depth += 1
+        elif x == "}": depth -= 1
+        elif depth == 0 and all(c.t(q + i) == pt for i, pt in enumerate(pat_tokens)):
+            return True
+    return False
+
+
+def _match_init(c, a, b, raii):
+    """which raii entry does the initialiser in sig range [a,b) select?  keys: `init:<token text>` (by what the binding is
+    initialised from, independent of its name) or a plain binding name"""
+    from .lex import Code as _C
+    best = None
+    for key, fn in raii.items():
+        if not key.startswith("init:"):
+            continue
+        pat = [t.text for t in _C(key[5:]).toks if t.kind not in ("ws",)]
+        if key[5:] == ".lock(":
+            if _depth0_contains(c, a, b, pat):
+                return fn
+        else:
+            for q in range(a, b):
+                if all(c.t(q + i) == pt for i, pt in enumerate(pat)):
+                    best = fn
+                    break
+    return best
+
+
 def rule_raii(text, raii):
     done = set()
 
@@ -84,8 +116,25 @@ def rule_raii(text, raii):
                 j = k + 1
                 if c.t(j) == "mut": j += 1
                 name = c.t(j)
-                if name not in raii or name in done or c.t(j + 1) not in ("=", ":"):
+                if c.kind(j) != "id" or c.t(j + 1) not in ("=", ":") or ("let:%d:%s" % (c.pos(k), name)) in done or name.startswith("__raii"):
                     continue
+                # extent of the initialiser
+                eq = j + 1
+                while c.t(eq) != "=":
+                    eq += 1
+                endi = eq + 1
+                while endi < len(c) and c.t(endi) != ";":
+                    if c.t(endi) in OPEN: endi = c.close(endi)
+                    endi += 1
+                dropfn = raii.get(name) or _match_init(c, eq + 1, endi, raii)
+                if not dropfn or name in done:
+                    continue
+                if name == "_":
+                    # `let _ = guard;` drops the guard at once (Rust semantics): make exactly that explicit
+                    n = len([d for d in done if d.startswith("now")])
+                    done.add("now%d" % n)
+                    tmp = "__raii_now_%d" % n
+                    return (c.pos(j), c.end(endi), "%s = %s; %s(%s, w);" % (tmp, c.slice(eq + 1, endi).strip(), dropfn, tmp))
                 ob = c.enclosing_open(k)
                 if ob < 0 or c.t(ob) != "{":
                     raise Unsupported("raii: binding %s not in a block" % name)
@@ -94,7 +143,7 @@ def rule_raii(text, raii):
                 if not idx:
                     raise Unsupported("raii: let %s is not a statement of its block" % name)
                 let_end = stmts[idx[0]][1]
-                dropcall = "%s(%s, w);" % (raii[name], name)
+                dropcall = "%s(%s, w);" % (dropfn, name)
                 edits = _scope_edits(c, ob, let_end, name, dropcall, binder_stmt_start=k)
                 done.add(name)
                 return (0, len(c.text), apply_edits(c.text, edits))
@@ -104,15 +153,25 @@ def rule_raii(text, raii):
                 while c.t(eq) != "=":
                     if c.t(eq) in OPEN: eq = c.close(eq)
                     eq += 1
-                names = [c.t(q) for q in range(k + 2, eq) if c.kind(q) == "id" and c.t(q) in raii and ("iflet:" + c.t(q)) not in done]
-                if not names:
-                    continue
-                name = names[0]
                 hb = eq + 1
                 while c.t(hb) != "{":
                     if c.t(hb) in ("(", "["): hb = c.close(hb)
                     hb += 1
-                dropcall = "%s(%s, w);" % (raii[name], name)
+                binders = [c.t(q) for q in range(k + 2, eq) if c.kind(q) == "id" and c.t(q) not in ("Ok", "Some", "Err", "mut", "ref", "let")
+                           and c.t(q + 1) != "(" and c.t(q + 1) != "::"]
+                dropfn = None
+                name = None
+                for bnm in binders:
+                    if ("iflet:" + bnm) in done:
+                        continue
+                    if bnm in raii:
+                        dropfn, name = raii[bnm], bnm; break
+                    f2 = _match_init(c, eq + 1, hb, raii)
+                    if f2:
+                        dropfn, name = f2, bnm; break
+                if not dropfn:
+                    continue
+                dropcall = "%s(%s, w);" % (dropfn, name)
                 edits = _scope_edits(c, hb, hb + 1, name, dropcall)
                 done.add("iflet:" + name)
                 return (0, len(c.text), apply_edits(c.text, edits))
